@@ -48,7 +48,7 @@ impl AttrMap {
     { unimplemented!() }
     #[verifier::external_body]
     fn remove(&mut self, k: &Gc<ObjString>) -> (r: Option<Value>)
-        ensures final(self).view == old(self).view.remove(k.id())
+        ensures final(self).view == old(self).view.remove(k.id()), r is Some <==> old(self).view.dom().contains(k.id())
     { unimplemented!() }
 }
 #[verifier::external_body]
